@@ -2,7 +2,7 @@
 # runs the quick check of the seed's own property against each seeded change applied to /repo
 for d in "$@"; do
   prop=$(echo $d | sed 's|.*/\(C[0-9]*\)\.out/.*|\1|')
-  name=$(echo $d | sed 's|/tmp/wt2/\(C[0-9]*\)\.out/|\1-r2-|; s|/tmp/wt3/\(C[0-9]*\)\.out/|\1-r3-|; s|/tmp/wt4/\(C[0-9]*\)\.out/|\1-r4-|; s|/tmp/wt5/\(C[0-9]*\)\.out/|\1-r5-|; s|/tmp/wt6/\(C[0-9]*\)\.out/|\1-r6-|; s|/tmp/wt/||; s|\.out/|-|')
+  name=$(echo $d | sed 's|/tmp/wt2/\(C[0-9]*\)\.out/|\1-r2-|; s|/tmp/wt3/\(C[0-9]*\)\.out/|\1-r3-|; s|/tmp/wt4/\(C[0-9]*\)\.out/|\1-r4-|; s|/tmp/wt5/\(C[0-9]*\)\.out/|\1-r5-|; s|/tmp/wt6/\(C[0-9]*\)\.out/|\1-r6-|; s|/tmp/wt7/\(C[0-9]*\)\.out/|\1-r7-|; s|/tmp/wt/||; s|\.out/|-|')
   if ! git -C /repo apply --check $d/patch.diff 2>/dev/null; then echo "$name: patch does not apply"; continue; fi
   git -C /repo apply $d/patch.diff
   res=$(/verif/bin/check $prop 2>&1 | grep -E "^VIOLATION|: OK|: VIOLATION|error" | tr '\n' ' ' | cut -c1-260)
